@@ -166,7 +166,33 @@ func (c *Ctx) canonicalRefs(reach []*core.FuncInfo) {
 			ok, how := c.isCanonicalRef(fi, ref, call)
 			if !ok {
 				if why, ex := refExempt[fi.QName()+"/"+exprStr(ref)]; ex {
-					c.S.Exempt("C02", "REF-CANONICAL", key, c.P.Pos(call.Pos()), why)
+					// the exemption holds only while the write raises the re-run flag when the ref is not a definition
+					raised := false
+					if blk, isBlk := c.parents(fi).Enclosing(call, func(n ast.Node) bool { _, b := n.(*ast.BlockStmt); return b }).(*ast.BlockStmt); isBlk {
+						for _, st := range blk.List {
+							as, isAs := st.(*ast.AssignStmt)
+							if !isAs || len(as.Lhs) != 1 || len(as.Rhs) != 1 || !core.IsBool(info.TypeOf(as.Lhs[0])) || !c.flowsToReturn(fi, as.Lhs[0]) {
+								continue
+							}
+							rs := exprStr(as.Rhs[0])
+							if strings.Contains(rs, "path.Dir("+exprStr(ref)) && strings.Contains(rs, "!=") {
+								ast.Inspect(as.Rhs[0], func(m ast.Node) bool {
+									if x, isE := m.(ast.Expr); isE {
+										if s, isC := core.ConstString(info, x); isC && s == "#/definitions" {
+											raised = true
+										}
+									}
+									return true
+								})
+							}
+						}
+					}
+					if raised {
+						c.S.Exempt("C02", "REF-CANONICAL", key, c.P.Pos(call.Pos()), why)
+					} else {
+						c.S.Violate("C02", "REF-CANONICAL", key, c.P.Pos(call.Pos()),
+							"a possibly non-canonical $ref ("+exprStr(ref)+") is written and the function does not tell its caller (no `flag = flag || path.Dir(ref) != \"#/definitions\"` next to the write): pointer naming is not run again and the anonymous pointer survives")
+					}
 					continue
 				}
 			}
